@@ -27,6 +27,7 @@ Grammar accepted (anything else raises TranslateError):
   SCALAR := number | self.PAR | scalar local
 """
 import ast
+import re
 import os
 from fractions import Fraction
 
@@ -430,6 +431,12 @@ def body(cx, stmts):
                 cx.fail(s, 'return before the end of a mode')
         else:
             sts += r
+    # the input x must never be a write target: the model computes in exact arithmetic, where `x += h; ...; x -= h`
+    # restores x, whereas floating point loses the last bits -- such a body is outside the grammar (fail closed)
+    for t in sts:
+        if (re.match(r'^(TLet|TLincomb|TIAdd|TIMul|TIScal|TAssign|TSetZero|TIDivS) RX\b', t)
+                or re.match(r'^(TCallIp|TMultiply|TUAbs|TUMaxS|TUMinS|TDivide) .* RX$', t)):
+            cx.fail(stmts[0], 'the body writes to its input x (%s)' % t)
     return '{| b_st := [%s]; b_ret := %s |}' % ('; '.join(sts), ret)
 
 
